@@ -71,7 +71,9 @@ impl<'ast> Visit<'ast> for V {
     fn visit_expr_call(&mut self, c: &'ast syn::ExprCall) {
         syn::visit::visit_expr_call(self, c);
         let f = squash(&toks(&*c.func));
-        if f.ends_with("::try_from_usize") {
+        if f.ends_with("::try_from_usize") && !crate::is_own_key_check(&f) {
+            self.out.push(format!("(.other {})", lean::s(&format!("key check on another type: {f}"))));
+        } else if f.ends_with("::try_from_usize") {
             self.out.push(".keyCheck".into());
         }
     }
@@ -141,7 +143,9 @@ impl<'ast> Visit<'ast> for R {
     fn visit_expr_call(&mut self, c: &'ast syn::ExprCall) {
         syn::visit::visit_expr_call(self, c);
         let f = squash(&toks(&*c.func));
-        if f.ends_with("::try_from_usize") {
+        if f.ends_with("::try_from_usize") && !crate::is_own_key_check(&f) {
+            self.out.push(format!("(.other {})", lean::s(&format!("key check on another type: {f}"))));
+        } else if f.ends_with("::try_from_usize") {
             self.out.push(".keyCheck".into());
         } else if f == "get_string_entry_mut" {
             self.out.push(".probe".into());
